@@ -16,8 +16,10 @@ def ttc(t):
     if t['type'] == 'none':
         return None
     if t['type'] == 'number':
-        return {'type': 'number', 'value': t['value10'] / 10}
+        return {'type': 'number', 'value': float(t['text']) if 'text' in t else t['value10'] / 10}
     if t['type'] == 'function':
+        if t.get('astext'):
+            return {'type': 'function', 'name': t['name'], 'arguments': [float(a) for a in t['arguments']]}
         return {'type': 'function', 'name': t['name'], 'arguments': [a / 10 for a in t['arguments']]}
     return {'type': t['type'], 'lhs': ttc(t['lhs']), 'rhs': ttc(t['rhs'])}
 
@@ -108,13 +110,20 @@ def lang_ctx(L, key=None):
 
 # ---------------------------------------------------------------------------------------------
 # inverse direction: a langspec dict (e.g. coreLang's langspec.json) -> Lang record in TJ normal form
+def _ftxt(v):
+    s = repr(float(v))
+    return s if 'e' not in s and 'E' not in s else '%.10f' % float(v)
+
+
 def _ttc_rec(t):
+    """numbers travel as decimal TEXT (TLC has no floats); the printer emits them as FLOAT tokens"""
     if t is None:
         return {'type': 'none'}
     if t['type'] == 'number':
-        return {'type': 'number', 'value10': int(round(t['value'] * 10))}
+        return {'type': 'number', 'text': _ftxt(t['value'])}
     if t['type'] == 'function':
-        return {'type': 'function', 'name': t['name'], 'arguments': [int(round(a * 10)) for a in t.get('arguments', [])]}
+        return {'type': 'function', 'name': t['name'], 'astext': True,
+                'arguments': [_ftxt(a) for a in t.get('arguments', [])]}
     return {'type': t['type'], 'lhs': _ttc_rec(t['lhs']), 'rhs': _ttc_rec(t['rhs'])}
 
 
